@@ -25,6 +25,7 @@ OWNER = {
     'paused_dispatched': 'C07', 'resume_time': 'C07', 'cancelled_ran': 'C07',
     'other_event_time_changed': 'C07', 'pause_scope': 'C07', 'unpause_scope': 'C07',
     'cancel_scope': 'C07',
+    'copy_pending_events': 'C01', 'copy_paused_events': 'C07',
 }
 
 
